@@ -1300,10 +1300,12 @@ fn cmd_run(world: &World, args: &Args) -> i32 {
         },
         "assumptions": [
             "parity-scale-codec's own integer codec is the reference for 'the encoding of the underlying integer' (the property names it)",
-            "a panic while decoding short input counts as a failure of 'decoding fewer bytes fails' (Decode::decode returns Result; a panic in a runtime is an abort)",
-            "host is little-endian: to_ne_bytes/from_ne_bytes are only checked for this target",
-            "histories and values are sampled (seeded); a clean batch is evidence, not proof",
-            "the derive-generated unsafe decode_into is executed natively, not under Miri",
+            "a panic while decoding short input counts as a failure of 'decoding fewer bytes fails' (Decode::decode returns Result; a panic in a runtime is an abort); undefined behaviour reported by Miri on a decode path counts as a violation too",
+            "inputs are modelled as honest about their length or silent: remaining_len() is exact, None, Err or over-reporting; an input that UNDER-reports breaks the Input contract and is not modelled (codec's own decoders fail on it)",
+            "C10 is read as a statement about the types' own Encode/Decode/MaxEncodedLen/TypeInfo, byte views, bits and serde form; separately specified encodings a change might add (e.g. a compact form via HasCompact) are out of scope; an added SCALE codec on Wrapping<F> and added EncodeLike relations are in scope (L1)",
+            "the serde struct name (FixedI8 .. FixedU128) and the integer's own width are taken to be part of 'the serde representation {bits}'",
+            "the seeded batches run on this little-endian 64-bit host only; the probe batch of the thorough tier also runs on interpreted big-endian (s390x) and 32-bit (i686) targets",
+            "histories and 64/128-bit values are sampled (seeded); a clean batch is evidence, not proof. 8-bit (quick) and 16/32-bit (thorough) bit patterns are swept exhaustively through the canonical encode_to/decode pair",
         ],
     });
     let ev_path = args.evidence.clone().unwrap_or_else(|| "/verif/evidence/C10.json".into());
